@@ -24,7 +24,7 @@ from optuna.storages.journal._storage import JournalOperation, JournalStorageRep
 
 from verif import core, fleet
 from verif import storage_k as K
-from verif.props import c06_redis
+from verif.props import c06_gen, c06_redis
 
 RULE = (
     "2-4 JournalStorage workers on one log (file backend with either lock, or fakeredis) execute a seeded interleaving "
@@ -108,11 +108,14 @@ def no_times(d: list[dict[str, Any]]) -> list[dict[str, Any]]:
 class Disagree(Exception):
     def __init__(self, kind: str, why: str) -> None:
         super().__init__(why)
-        self.kind = kind  # "property" (real views differ) | "model" (model vs real)
+        self.kind = kind  # "property" (real views differ) | "model" (model vs real) | "gen" (generated handlers vs hand model)
 
 
-def run_case(cfg: str, tmp: str, seed: int, n_workers: int, n_ops: int, drv: core.Driver, plan: dict[str, Any] | None = None) -> dict[str, Any]:
-    """One history.  Returns stats; raises Disagree."""
+def run_case(cfg: str, tmp: str, seed: int, n_workers: int, n_ops: int, drv: core.Driver, plan: dict[str, Any] | None = None,
+             property_only: bool = False) -> dict[str, Any]:
+    """One history.  Returns stats; raises Disagree.  `property_only` (failing-input search): a difference between model
+    and implementation is remembered but does not end the history, so that the model-independent oracles (views of the
+    real workers equal, a rejected call changes nothing, replay gets past every record, ...) see all of it."""
     r = random.Random(seed)
     h = fleet.make(cfg, tmp)
     workers = [h.storage] + [h.peer() for _ in range(n_workers - 1)]
@@ -123,8 +126,23 @@ def run_case(cfg: str, tmp: str, seed: int, n_workers: int, n_ops: int, drv: cor
     execs = [ex0] + [K.Exec(w, share=ex0) for w in workers[1:]]
     gdrv_state = K.Gen(r, max_trials=8)
     n_known = 0
-    stats = {"rejected": 0, "records": 0, "workers_in_log": set(), "ops": []}
+    stats = {"rejected": 0, "records": 0, "workers_in_log": set(), "ops": [], "gen": None, "model": None}
     ops_log: list[Any] = []
+
+    def gen_check(resp: Any, where: str) -> Any:
+        """the interpreter of the handlers generated from the source must agree with the hand model on every record;
+        a difference is remembered (reported when the case ends) but does not cut the case short: the property oracles
+        below must still see the rest of the history"""
+        d = c06_gen.gen_disagreement(resp)
+        if d is not None and stats["gen"] is None:
+            stats["gen"] = "%s: interpreter of the generated handlers and the hand model differ: %s" % (where, json.dumps(d, sort_keys=True)[:900])
+        return resp
+
+    def model_fail(why: str) -> None:
+        if not property_only:
+            raise Disagree("model", why)
+        if stats["model"] is None:
+            stats["model"] = why
 
     def pull() -> None:
         nonlocal n_known
@@ -133,7 +151,7 @@ def run_case(cfg: str, tmp: str, seed: int, n_workers: int, n_ops: int, drv: cor
             stats["records"] += 1
             stats["workers_in_log"].add(log["worker_id"])
             resp = drv.ask({"cmd": "append", "rec": rec_to_driver(log)})
-            if resp.get("k") != "ok":
+            if resp.get("k") != "ok" and not property_only:
                 raise core.DriverBroken("driver rejected a record read from the real log: %s / %s" % (json.dumps(log, default=str)[:300], resp))
 
     def compare_views(where: str) -> None:
@@ -144,10 +162,10 @@ def run_case(cfg: str, tmp: str, seed: int, n_workers: int, n_ops: int, drv: cor
                     where, i, json.dumps(real[i], sort_keys=True)[:500], json.dumps(real[0], sort_keys=True)[:500]))
         pull()
         for i, w in enumerate(workers):
-            drv.ask({"cmd": "sync", "worker": wid[i]})
+            gen_check(drv.ask({"cmd": "sync", "worker": wid[i]}), where)
             m = K.strip_model(drv.ask({"cmd": "dump", "worker": wid[i]})["state"])
             if m != no_times(real[i]):
-                raise Disagree("model", "%s: model replica of worker %d differs from the real one: %s / %s" % (
+                model_fail("%s: model replica of worker %d differs from the real one: %s / %s" % (
                     where, i, json.dumps(m, sort_keys=True)[:500], json.dumps(real[i], sort_keys=True)[:500]))
 
     try:
@@ -161,7 +179,7 @@ def run_case(cfg: str, tmp: str, seed: int, n_workers: int, n_ops: int, drv: cor
             obs = execs[i].run(op)
             ops_log.append([i, op])
             pull()
-            m = drv.ask({"cmd": "sync", "worker": wid[i]})
+            m = gen_check(drv.ask({"cmd": "sync", "worker": wid[i]}), "step %d" % step)
             # feedback for the generator (ids advance on success)
             gdrv_state.feedback(op, obs)
             mutating = op["op"] in K.MUTATING
@@ -170,16 +188,16 @@ def run_case(cfg: str, tmp: str, seed: int, n_workers: int, n_ops: int, drv: cor
                 if real_err is not None:
                     stats["rejected"] += 1
                 if m["err"] != real_err:
-                    raise Disagree("model", "step %d %s by worker %d: model raises %s at the issuer, implementation %s" % (step, json.dumps(op)[:200], i, m["err"], real_err))
+                    model_fail("step %d %s by worker %d: model raises %s at the issuer, implementation %s" % (step, json.dumps(op)[:200], i, m["err"], real_err))
                 if op["op"] == "createTrial" and obs["k"] == "id":
                     real_id = execs[i].t2r[obs["n"]]
                     if m["lastCreated"] != real_id:
-                        raise Disagree("model", "step %d create_new_trial returned id %s, model %s" % (step, real_id, m["lastCreated"]))
+                        model_fail("step %d create_new_trial returned id %s, model %s" % (step, real_id, m["lastCreated"]))
                 if op["op"] == "setTrialStateValues" and obs["k"] == "bool":
                     tid = execs[i].rt(op["tid"])
                     answer = not (op["state"] == 0 and m["ownedByMe"] != tid)
                     if answer != obs["b"]:
-                        raise Disagree("model", "step %d set_trial_state_values(%s) answered %s, model %s" % (step, json.dumps(op)[:150], obs["b"], answer))
+                        model_fail("step %d set_trial_state_values(%s) answered %s, model %s" % (step, json.dumps(op)[:150], obs["b"], answer))
                 if before is not None and real_err is not None:
                     j, d0 = before
                     d1 = dump_storage(workers[j])
@@ -213,9 +231,9 @@ def run_case(cfg: str, tmp: str, seed: int, n_workers: int, n_ops: int, drv: cor
                         raise Disagree("property", "replay as worker %d cannot get past record %d: the same rejected record raises again on every sync" % (k, before_cursor))
         if dump_replay_result(rr) != final:
             raise Disagree("property", "replaying the same log in batches %s as worker %d gives a different state" % (cuts, k))
-        m = drv.ask({"cmd": "replay", "worker": wid[k], "cuts": cuts})
+        m = gen_check(drv.ask({"cmd": "replay", "worker": wid[k], "cuts": cuts}), "batch replay")
         if K.strip_model(m["rep"]["state"]) != no_times(final) or m["errors"] != errors:
-            raise Disagree("model", "batch replay: model (errors=%s) vs implementation (errors=%d) differ" % (m.get("errors"), errors))
+            model_fail("batch replay: model (errors=%s) vs implementation (errors=%d) differ" % (m.get("errors"), errors))
         # (3) snapshot at a random position + tail, restored by a fresh worker
         at = r.randrange(n + 1)
         by = r.randrange(n_workers)
@@ -234,12 +252,16 @@ def run_case(cfg: str, tmp: str, seed: int, n_workers: int, n_ops: int, drv: cor
             st._sync_with_backend()
         if dump_storage(st) != final:
             raise Disagree("property", "restoring a snapshot taken after %d records and replaying the tail gives a different state" % at)
-        m = drv.ask({"cmd": "snapshot", "worker": "fresh-worker", "by": wid[by], "at": at})
+        m = gen_check(drv.ask({"cmd": "snapshot", "worker": "fresh-worker", "by": wid[by], "at": at}), "snapshot+tail")
         if K.strip_model(m["rep"]["state"]) != no_times(final):
-            raise Disagree("model", "snapshot+tail: model differs from implementation (at=%d)" % at)
+            model_fail("snapshot+tail: model differs from implementation (at=%d)" % at)
         stats["ops"] = ops_log
         stats["cuts"] = cuts
         stats["snapshot_at"] = at
+        if stats["model"] is not None:
+            raise Disagree("model", stats["model"])
+        if stats["gen"] is not None:
+            raise Disagree("gen", stats["gen"])
         return stats
     except Disagree as d:
         d.ops = ops_log  # type: ignore[attr-defined]
@@ -248,14 +270,14 @@ def run_case(cfg: str, tmp: str, seed: int, n_workers: int, n_ops: int, drv: cor
         h.close()
 
 
-def _worker(args: tuple[str, list[tuple[int, int, int]], str]) -> list[dict[str, Any]]:
-    cfg, cases, tmp = args
-    drv = core.Driver("journal")
+def _worker(args: tuple[str, list[tuple[int, int, int]], str, bool]) -> list[dict[str, Any]]:
+    cfg, cases, tmp, property_only = args
+    drv = core.Driver(c06_gen.DRIVER)
     out = []
     try:
         for seed, nw, nops in cases:
             try:
-                st = run_case(cfg, tmp, seed, nw, nops, drv)
+                st = run_case(cfg, tmp, seed, nw, nops, drv, property_only=property_only)
                 out.append({"seed": seed, "nw": nw, "nops": nops, "ok": True, "rejected": st["rejected"], "records": st["records"],
                             "nwork": len(st["workers_in_log"]), "sample": st["ops"][:12], "cuts": st["cuts"], "snapshot_at": st["snapshot_at"]})
             except Disagree as d:
@@ -273,20 +295,22 @@ def _worker(args: tuple[str, list[tuple[int, int, int]], str]) -> list[dict[str,
     return out
 
 
-def explore(chk: core.Check, cfgs: list[str], n_cases: int, max_ops: int) -> None:
+def explore(chk: core.Check, cfgs: list[str], n_cases: int, max_ops: int, property_only: bool = False) -> None:
     import multiprocessing as mp
 
     jobs = []
     for ci, cfg in enumerate(cfgs):
         cases = [(chk.seed * 100003 + ci * 10007 + i, chk.rng.randint(2, 4), chk.rng.randint(8, max_ops)) for i in range(n_cases)]
         # split each configuration over two processes
-        jobs.append((cfg, cases[::2], chk.tmp))
-        jobs.append((cfg, cases[1::2], chk.tmp))
+        jobs.append((cfg, cases[::2], chk.tmp, property_only))
+        jobs.append((cfg, cases[1::2], chk.tmp, property_only))
     with mp.get_context("spawn").Pool(min(len(jobs), 12)) as pool:
         results = pool.map(_worker, jobs)
-    for (cfg, _, _), res in zip(jobs, results):
+    for (cfg, _, _, _), res in zip(jobs, results):
         for c in res:
             case = {"cfg": cfg, "seed": c["seed"], "workers": c["nw"], "ops": c["nops"]}
+            if property_only:
+                case["property_only"] = True
             if c["ok"]:
                 chk.case(dict(case, first_ops=c["sample"], cuts=c["cuts"], snapshot_at=c["snapshot_at"]), nontrivial=c["rejected"] >= 1 and c["nwork"] >= 2)
                 chk.count("cases:" + cfg)
@@ -309,19 +333,22 @@ def check_opcodes(chk: core.Check) -> None:
 def search(chk: core.Check) -> None:
     """Failing-input search after a breakage: many more histories, property oracle only matters."""
     chk.search_log.append("searching 3x more histories for a real-vs-real divergence")
-    explore(chk, ["journal-symlink", "journal-redis"], 120, 80)
+    explore(chk, ["journal-symlink", "journal-redis"], 120, 80, property_only=True)
 
 
 def main(chk: core.Check) -> int:
     chk.rule = RULE
+    c06_gen.regenerate(chk)  # T-journal: Generated/JournalHandlers.lean from journal/_storage.py
     if not getattr(chk, "no_prove", False):
-        chk.prove(["OptunaVerif.Props.C06", "OptunaVerif.Props.C06Redis"])
+        chk.prove(["OptunaVerif.Props.C06", c06_gen.MODULE, "OptunaVerif.Props.C06Redis"])
+        c06_gen.explain_proof_failure(chk)
     check_opcodes(chk)
     quick = chk.tier == "quick"
     try:
         core.ensure_driver()
         cfgs = ["journal-symlink", "journal-open", "journal-redis"]
         explore(chk, cfgs, 150 if quick else 2500, 60 if quick else 200)
+        c06_gen.differential(chk, 60 if quick else 1500, 40)
     except core.DriverBroken as e:
         chk.broke("correspondence", {"driver": str(e)[:800]})
     c06_redis.correspond(chk, chk.tier)  # the Redis backend command by command against Model/JournalRedis.lean
@@ -334,12 +361,21 @@ def replay(chk: core.Check, path: str) -> int:
     w = json.load(open(path))["witness"]
     if w.get("part") == "redis":
         return c06_redis.replay_case(chk, w)
+    c06_gen.regenerate(chk)  # the driver links the handlers generated from the tree under test
     core.ensure_driver()
-    drv = core.Driver("journal")
+    drv = core.Driver(c06_gen.DRIVER)
     try:
-        run_case(w["cfg"], chk.tmp, w["seed"], w["workers"], w["ops"], drv)
+        run_case(w["cfg"], chk.tmp, w["seed"], w["workers"], w["ops"], drv, property_only=bool(w.get("property_only")))
     except Disagree as d:
         print("REPRODUCED (%s): %s" % (d.kind, d))
+        return 1
+    except core.DriverBroken:
+        raise
+    except K.IdReuse as e:
+        print("REPRODUCED (property): a worker handed out an id twice: %s" % e)
+        return 1
+    except Exception as e:  # noqa: BLE001 - same classification as _worker: a read / sync of some worker raised
+        print("REPRODUCED (property): a worker's read/sync raised %s: %s" % (type(e).__name__, str(e)[:200]))
         return 1
     finally:
         drv.close()
